@@ -351,7 +351,12 @@ def j_c10(inp):
     try:
         b = Bar(s, num, den)
     except BarException:
-        return []
+        # rejection is a matter of content: offering the same sequence object again must be rejected again
+        try:
+            Bar(s, num, den)
+        except BarException:
+            return []
+        return ["a sequence rejected by Bar (over-long / conflicting signature) is accepted when the same object is offered again"]
     v = []
     out = rel_of(b.sequence)
     d = abs_from_rel(out)[1]
@@ -447,6 +452,38 @@ def j_c06_defaults(inp):
     got = sorted(d for _, _, _, d, _ in roll(abs_of(s)))
     exp = sorted(min(documented, key=lambda v: (abs(v - d), documented.index(v))) for d in (16, 8))
     return [] if got == exp else [f"default note-length quantisation after a caller edited the list it got from get_default_note_values(): durations {got}, expected {exp}"]
+
+
+@judge_for("C06", "util")
+def j_c06_fmd(inp):
+    from scoda.misc import util
+    kind, a = inp
+    if kind != "fmd":
+        return None
+    e, l = a
+    got = util.find_minimal_distance(e, list(l))
+    want = min(range(len(l)), key=lambda i: (abs(l[i] - e), i))
+    return [] if got == want else [f"find_minimal_distance({e}, {l}) = {got}, the closest candidate has index {want}"]
+
+
+@judge_for("C02", "util")
+def j_c02_defaults(inp):
+    """a tokeniser built with the default note values keeps ITS vocabulary: a caller that later extends the list it
+    got from get_default_note_values() must not make that tokeniser emit tokens outside its dictionary"""
+    from scoda.misc import util
+    kind, a = inp
+    if kind != "defaults":
+        return None
+    t = ops.Tokeniser(num_tracks=1)
+    mine = util.get_default_note_values()
+    mine.append(40)
+    s_ = mk_abs([ON(0, 60, 100, 0), OFF(0, 60, 40)])
+    try:
+        toks = t.tokenise([s_])
+    except Exception:
+        return []                      # rejected: 40 is not one of this tokeniser's note values
+    bad = [x for x in toks if x not in t.dictionary]
+    return [f"tokenise emitted {bad[0]!r}, which is not in the vocabulary (the default note values were extended by a caller afterwards)"] if bad else []
 
 
 @judge_for("C11", "util")
@@ -676,6 +713,73 @@ def j_c16_scaled(inp):
     if _exact(s) != before:
         v.append("split changed its source")
     return v
+
+
+# ---- a channel set to None after construction (Message() itself turns None into 0): outside the Coq model (waits derived
+# from such a message get channel 0), judged on the implementation alone
+def _gen_none_channel(r):
+    ms = G.gen_abs_wf(r, n=r.randint(1, 4), chans=[0, 0, 1], pitches=[60, 61], hi=30, sigs=r.random() < 0.3, extra=r.random() < 0.3)
+    return ms, r.randrange(len(ms)) if ms else 0, r.random() < 0.5, r.randrange(1 << 20)
+
+
+ops.Op("none_channel", _gen_none_channel, lambda inp: "", None)
+
+
+def _with_none(ms, k, twin):
+    """the sequence with message k given channel None while iterating messages_abs(); twin: a copy of that message on
+    channel 0 at the same tick is added as well (same tick, type and pitch on channels None and 0)"""
+    s = mk_abs(ms)
+    target, done = tuple(ms[k]), False
+    for m in s.messages_abs():
+        if not done and tuple(from_message(m)) == target:
+            m.channel = None
+            done = True
+    if twin and ms:
+        t = s.abs._messages[0]
+        for m in s.abs._messages:
+            if m.channel is None:
+                t = m
+        c = t.copy()
+        c.channel = 0
+        s.add_absolute_message(c)
+    return s
+
+
+@judge_for("C04", "none_channel")
+def j_c04_none(inp):
+    ms, k, twin, seed = inp
+    if not ms or k >= len(ms):
+        return None
+    try:
+        s = _with_none(ms, k, twin)
+        a = [from_message(m) for m in s.abs._messages]
+        r, d = abs_from_rel([from_message(m, rel=True) for m in s.rel._messages])
+    except Exception as e:
+        return [f"editing a channel to None while iterating messages_abs() raised {type(e).__name__}: {e}"]
+    strip = lambda l: sorted((m[0], m[2], m[4], m[5], m[8], m[9], str(m[10])) for m in l if m[0] not in ("INTERNAL", "WAIT"))
+    da = a[-1][2] if a else 0
+    if strip(a) != strip(r) or da != d:
+        return [f"absolute view {strip(a)} (dur {da}) vs relative view {strip(r)} (dur {d})"]
+    if any(x[2] > y[2] for x, y in zip(a, a[1:])):
+        return ["absolute view not sorted by time"]
+    return []
+
+
+@judge_for("C17", "none_channel")
+def j_c17_none(inp):
+    """the same events entered in two different orders compare equal, also when a channel is None"""
+    ms, k, twin, seed = inp
+    if not ms or not wellformed(ms) or k >= len(ms):
+        return None
+    try:
+        a = _with_none(ms, k, twin)
+        order = list(ms)
+        random.Random(seed).shuffle(order)
+        b = _with_none(order, order.index(ms[k]), twin)      # the same message, found by content (copy() would turn the None back into 0)
+        r1, r2 = a.equals(b), b.equals(a)
+    except Exception as e:
+        return [f"equals raised {type(e).__name__}: {e}"]
+    return [] if (r1 and r2) else [f"the same events entered in another order compare unequal ({r1}, {r2})"]
 
 
 def _comp_content(c):
@@ -1606,6 +1710,9 @@ def exhaustive_c20():
 
 def _exhaustive_c20():
     v, n = [], 0
+    # the tables are process-wide: use the library a little first (key-signature guess reads the scale table)
+    for ms_ in ([ON(0, 62, 90, 0), OFF(0, 62, 12), ON(0, 66, 90, 12), OFF(0, 66, 24)], [ON(0, 60, 90, 0), OFF(0, 60, 6)]):
+        mk_abs(ms_).rel.get_key_signature_guess()
     scale = [0, 2, 4, 5, 7, 9, 11]
     for k in Key:
         notes, acc = MusicMapping.KeyNoteMapping[k]
@@ -1678,7 +1785,7 @@ def run(prop, seed, tier, extra_inputs=(), boost=1, kf=None):
         n = ORACLE_N[tier] * boost
         if opname in ("vocab",):
             n = max(20, n // 10)
-        if opname in ("tok_stream", "history", "tok_stateful", "scale_down", "concat_repeat"):
+        if opname in ("tok_stream", "history", "tok_stateful", "scale_down", "concat_repeat", "none_channel", "scaled_copy", "midi_load_nd"):
             n = max(50, n // 2)
         inputs = [i for o, i in extra_inputs if o == opname] + [op.gen(rng) for _ in range(n)]
         new_here, known_here = 0, 0
